@@ -142,11 +142,20 @@ func newFromConfig(ld blobserver.Loader, config jsonconfig.Obj) (storage blobser
 
 func (sto *replicaStorage) Fetch(ctx context.Context, b blob.Ref) (file io.ReadCloser, size uint32, err error) {
 	// TODO: race these? first to respond?
+	var failErr error // first error other than "not exist"
 	for _, replica := range sto.readReplicas {
 		file, size, err = replica.Fetch(ctx, b)
 		if err == nil {
 			return
 		}
+		if failErr == nil && !errors.Is(err, os.ErrNotExist) {
+			failErr = err
+		}
+	}
+	if failErr != nil {
+		// A replica that failed might hold the blob: don't report
+		// it as missing because a later replica doesn't have it.
+		return nil, 0, failErr
 	}
 	return
 }
